@@ -232,3 +232,544 @@ Proof.
   destruct (depth_ok md depth); cbn [negb andb]; [|reflexivity].
   destruct (m_is_ignore _); reflexivity.
 Qed.
+
+(* ================================================================ the command-line level *)
+Lemma decide_spec_ext o s s' :
+  s_overrides s = s_overrides s' -> s_types s = s_types s' -> s_hidden s = s_hidden s' ->
+  (if s_any_rules s then ignore_stage o s else MNone) = (if s_any_rules s' then ignore_stage o s' else MNone) ->
+  decide_spec o s = decide_spec o s'.
+Proof. intros H1 H2 H3 H4. unfold decide_spec. rewrite H1, H2, H3, H4. reflexivity. Qed.
+
+Definition silent (q : dview) : Prop :=
+  v_custom q = MNone /\ v_ignore q = MNone /\ v_gi q = MNone /\ v_excl q = MNone /\ v_git q = false.
+
+Lemma existsb_app_single {A} (f : A -> bool) l q : f q = false -> existsb f (l ++ [q]) = existsb f l.
+Proof. intro H. rewrite existsb_app. cbn [existsb]. rewrite H. rewrite !orb_false_r. reflexivity. Qed.
+
+(* a silent directory at the far end of the chain above the root changes nothing *)
+Lemma stage_sources_above_ext o s s' :
+  s_below s = s_below s' -> s_global s = s_global s' -> s_explicit s = s_explicit s' ->
+  existsb v_git (s_above s) = existsb v_git (s_above s') ->
+  (o_parents o = true -> exists q, s_above s = s_above s' ++ [q] /\ silent q) ->
+  stage_sources o s = stage_sources o s'.
+Proof.
+  intros HB HG HE HX HP. unfold stage_sources, in_repo, heard.
+  rewrite !existsb_app, HB, HG, HE, HX.
+  destruct (o_parents o) eqn:EP; [|reflexivity].
+  destruct (HP eq_refl) as (q & HA & Hc & Hi & Hg & He & _). rewrite HA, app_assoc.
+  assert (S1 : forall f : dview -> mtch, f q = MNone -> forall d, In d [q] -> f d = MNone).
+  { intros f Hf d [<-|[]]. exact Hf. }
+  rewrite (nearest_app_silent v_custom _ [q] (S1 _ Hc)), (nearest_app_silent v_ignore _ [q] (S1 _ Hi)),
+    (nearest_upto_app_silent v_gi _ [q] (S1 _ Hg)), (nearest_upto_app_silent v_excl _ [q] (S1 _ He)).
+  reflexivity.
+Qed.
+
+Lemma fold_add_child below : forall ig,
+  ig_nodes (fold_left add_child below ig) = rev (map (child_node (ig_sh ig)) below) ++ ig_nodes ig
+  /\ ig_sh (fold_left add_child below ig) = ig_sh ig
+  /\ ig_abs_base (fold_left add_child below ig) = ig_abs_base ig.
+Proof.
+  induction below as [|d r IH]; intro ig; cbn [fold_left map rev app]; [repeat split|].
+  destruct (IH (add_child ig d)) as (H1 & H2 & H3). rewrite H1, H2, H3. cbn [add_child ig_nodes ig_sh ig_abs_base].
+  rewrite <- app_assoc. repeat split.
+Qed.
+
+Lemma fold_parent_nodes sh above : forall acc,
+  fold_left (fun acc d => parent_node sh d :: acc) above acc = rev (map (parent_node sh) above) ++ acc.
+Proof.
+  induction above as [|d r IH]; intro acc; cbn [fold_left map rev app]; [reflexivity|].
+  rewrite IH, <- app_assoc. reflexivity.
+Qed.
+
+Lemma take_while_app_stop {A} (f : A -> bool) l1 x l2 :
+  forallb f l1 = true -> f x = false -> take_while f (l1 ++ x :: l2) = l1 /\ drop_while f (l1 ++ x :: l2) = x :: l2.
+Proof.
+  induction l1 as [|y r IH]; cbn [forallb app take_while drop_while]; intros H1 H2.
+  - rewrite H2. split; reflexivity.
+  - apply andb_true_iff in H1 as [Hy Hr]. rewrite Hy. destruct (IH Hr H2) as [-> ->]. split; reflexivity.
+Qed.
+
+Lemma child_nodes_notabs sh l : forallb (fun n => negb (nd_abs n)) (rev (map (child_node sh) l)) = true.
+Proof.
+  apply forallb_forall. intros n Hn. apply in_rev in Hn. apply in_map_iff in Hn as (d & <- & _). reflexivity.
+Qed.
+
+(* the per-directory views agree *)
+Lemma child_view f c p d di :
+  nview p d false (child_node (ig_sh (build_root (walk_builder_opts f) (walk_builder_env f c))) di) = wdview f false p d di.
+Proof.
+  destruct f as [fh fd fe ff fg fp fv fr].
+  unfold nview, wdview, child_node, src_on. cbn.
+  destruct fd, fe, fv, fr, (di_has_dotgit di); reflexivity.
+Qed.
+Lemma parent_view f c p d di :
+  nview p d true (parent_node (ig_sh (build_root (walk_builder_opts f) (walk_builder_env f c))) di) = wdview f true p d di.
+Proof.
+  destruct f as [fh fd fe ff fg fp fv fr].
+  unfold nview, wdview, parent_node, child_node, src_on. cbn.
+  destruct fd, fe, fv, fr, (di_has_dotgit di); reflexivity.
+Qed.
+
+Lemma map_rev_map {A B C} (g : B -> C) (h : A -> B) l : map g (rev (map h l)) = map (fun x => g (h x)) (rev l).
+Proof. rewrite <- map_rev, map_map. reflexivity. Qed.
+
+Definition early_return (f : lowflags) : bool := f_no_ignore_parent f && f_no_ignore_vcs f.
+
+Lemma early_return_eq f c :
+  let o := sh_opts (ig_sh (build_root (walk_builder_opts f) (walk_builder_env f c))) in
+  negb (o_parents o) && negb (o_git_ignore o) && negb (o_git_exclude o) && negb (o_git_global o) = early_return f.
+Proof. destruct f as [fh fd fe ff fg fp fv fr]. cbn. destruct fp, fv, fe, fg; reflexivity. Qed.
+
+Lemma wdview_nogit_vcs f a p d di : f_no_ignore_vcs f = true -> v_git (wdview f a p d di) = false.
+Proof. intro H. cbn. rewrite H. destruct (f_no_require_git f); reflexivity. Qed.
+
+Lemma root_node_silent p d a : silent (nview p d a root_node).
+Proof. repeat split. Qed.
+Lemma root_node_silent' : silent (nview_silent root_node).
+Proof. repeat split. Qed.
+
+(* has_any_ignore_rules = false: every source is switched off *)
+Lemma no_rules_stage f w p0 d :
+  has_any_ignore_rules (world_ig f w) = false -> ignore_stage (walk_builder_opts f) (wview f w p0 d) = MNone.
+Proof.
+  unfold world_ig. destruct (fold_add_child (w_below w)
+    (add_parents (build_root (walk_builder_opts f) (walk_builder_env f (w_cmd w))) (w_canon w) (w_above w))) as (_ & HS & _).
+  unfold has_any_ignore_rules. rewrite HS.
+  assert (HSH : ig_sh (add_parents (build_root (walk_builder_opts f) (walk_builder_env f (w_cmd w))) (w_canon w) (w_above w))
+                = ig_sh (build_root (walk_builder_opts f) (walk_builder_env f (w_cmd w)))).
+  { unfold add_parents. destruct (_ && _ && _ && _); [reflexivity|]. destruct (w_canon w); reflexivity. }
+  rewrite HSH. destruct f as [fh fd fe ff fg fp fv fr]. cbn.
+  intro H.
+  destruct fd; cbn in H; [|discriminate].
+  destruct fv; cbn in H; [|destruct fg; discriminate].
+  unfold ignore_stage, stage_sources. cbn [f_no_ignore_dot f_no_ignore_vcs f_no_ignore_exclude f_no_ignore_global f_no_ignore_files wview
+    s_below s_above s_global s_explicit walk_builder_opts o_parents o_require_git].
+  assert (E : (if ff then [] else map (fun g : gmatcher => g (strip_dot_slash p0) d) (rev (c_ignore_files (w_cmd w)))) = []).
+  { destruct ff; [reflexivity|]. cbn in H. destruct (c_ignore_files (w_cmd w)); [reflexivity|discriminate]. }
+  rewrite E.
+  set (ds := heard _ _ _).
+  assert (HN : forall (g : dview -> mtch) l, (forall x, In x ds -> g x = MNone) -> incl l ds -> nearest (map g l) = MNone).
+  { intros g l Hg Hl. apply nearest_all_none. intros m Hm. apply in_map_iff in Hm as (x & <- & Hx). apply Hg, Hl, Hx. }
+  assert (HD : forall x, In x ds -> v_custom x = MNone /\ v_ignore x = MNone /\ v_gi x = MNone /\ v_excl x = MNone).
+  { intros x Hx. unfold ds, heard in Hx.
+    assert (Hx' : In x (map (wdview {| f_hidden := fh; f_no_ignore_dot := true; f_no_ignore_exclude := fe; f_no_ignore_files := ff;
+                                       f_no_ignore_global := fg; f_no_ignore_parent := fp; f_no_ignore_vcs := true; f_no_require_git := fr |}
+                                    false (strip_dot_slash p0) d) (rev (w_below w))) \/
+                  exists b, In x (map (wdview {| f_hidden := fh; f_no_ignore_dot := true; f_no_ignore_exclude := fe; f_no_ignore_files := ff;
+                                       f_no_ignore_global := fg; f_no_ignore_parent := fp; f_no_ignore_vcs := true; f_no_require_git := fr |}
+                                    true b d) (rev (w_above w)))).
+    { destruct (negb fp); [apply in_app_or in Hx as [Hx|Hx]|]; try (left; exact Hx).
+      destruct (w_canon w); [right; eexists; exact Hx|destruct Hx]. }
+    destruct Hx' as [Hx'|[b Hx']]; apply in_map_iff in Hx' as (di & <- & _); repeat split. }
+  rewrite (HN v_custom ds), (HN v_ignore ds), (HN v_gi (upto_repo ds)), (HN v_excl (upto_repo ds));
+    try (intros x Hx; apply HD in Hx; tauto); try apply incl_refl; try apply upto_repo_incl.
+  destruct (in_repo _ _); reflexivity.
+Qed.
+
+Lemma existsb_nexists_false {A} (g : A -> bool) l : (forall x, In x l -> g x = false) -> existsb g l = false.
+Proof.
+  induction l as [|x r IH]; intro H; [reflexivity|]. cbn [existsb].
+  rewrite (H x (or_introl eq_refl)), IH; [reflexivity|]. intros y Hy. apply H. right. exact Hy.
+Qed.
+
+Lemma world_ig_shape f w :
+  let sh := ig_sh (build_root (walk_builder_opts f) (walk_builder_env f (w_cmd w))) in
+  ig_sh (world_ig f w) = sh /\
+  ig_nodes (world_ig f w) =
+    rev (map (child_node sh) (w_below w)) ++
+    (if early_return f then [] else match w_canon w with Some _ => rev (map (parent_node sh) (w_above w)) | None => [] end)
+    ++ [root_node] /\
+  ig_abs_base (world_ig f w) = if early_return f then None else w_canon w.
+Proof.
+  intro sh. unfold world_ig.
+  destruct (fold_add_child (w_below w) (add_parents (build_root (walk_builder_opts f) (walk_builder_env f (w_cmd w)))
+                                                   (w_canon w) (w_above w))) as (H1 & H2 & H3).
+  rewrite H1, H2, H3. unfold add_parents.
+  pose proof (early_return_eq f (w_cmd w)) as HE. cbv zeta in HE. rewrite HE.
+  destruct (early_return f); [repeat split|].
+  destruct (w_canon w) as [b|]; [|repeat split].
+  cbn [ig_nodes ig_sh ig_abs_base]. rewrite fold_parent_nodes. repeat split.
+Qed.
+
+Lemma split_nodes sh below pn :
+  forallb nd_abs pn = true ->
+  take_while (fun n => negb (nd_abs n)) (rev (map (child_node sh) below) ++ pn ++ [root_node]) = rev (map (child_node sh) below)
+  /\ drop_while (fun n => negb (nd_abs n)) (rev (map (child_node sh) below) ++ pn ++ [root_node]) = pn ++ [root_node].
+Proof.
+  intro H. destruct pn as [|x r].
+  - cbn [app]. apply take_while_app_stop; [apply child_nodes_notabs|reflexivity].
+  - cbn [app]. cbn [forallb] in H. apply andb_true_iff in H as [Hx _].
+    apply take_while_app_stop; [apply child_nodes_notabs|rewrite Hx; reflexivity].
+Qed.
+
+Lemma parent_nodes_abs sh l : forallb nd_abs (rev (map (parent_node sh) l)) = true.
+Proof. apply forallb_forall. intros n Hn. apply in_rev in Hn. apply in_map_iff in Hn as (d & <- & _). reflexivity. Qed.
+
+Lemma self_dir_world f w : w_below w <> [] -> self_dir (world_ig f w) = last_dir w.
+Proof.
+  intro HB. destruct (world_ig_shape f w) as (_ & HN & _). unfold self_dir, last_dir. rewrite HN.
+  rewrite <- map_rev. destruct (rev (w_below w)) as [|x r] eqn:E.
+  - exfalso. apply HB. apply (f_equal (@rev _)) in E. rewrite rev_involutive in E. exact E.
+  - reflexivity.
+Qed.
+
+Lemma decide_eq_world_proof f w p0 d :
+  w_below w <> [] -> decide f w p0 d = decide_world f w p0 d.
+Proof.
+  intro HB. unfold decide, decide_world. rewrite matched_dir_entry_eq_spec.
+  destruct (world_ig_shape f w) as (HS & HN & HA).
+  assert (HO : sh_opts (ig_sh (world_ig f w)) = walk_builder_opts f) by (rewrite HS; reflexivity).
+  rewrite HO.
+  apply decide_spec_ext.
+  - unfold view_of, wview. cbn [s_overrides]. rewrite HS. reflexivity.
+  - unfold view_of, wview. cbn [s_types]. rewrite HS. reflexivity.
+  - reflexivity.
+  - replace (s_any_rules (wview f w p0 d)) with true by reflexivity.
+    replace (s_any_rules (view_of (world_ig f w) p0 d)) with (has_any_ignore_rules (world_ig f w)) by reflexivity.
+    destruct (has_any_ignore_rules (world_ig f w)) eqn:HAny; [|symmetry; apply no_rules_stage; exact HAny].
+    unfold ignore_stage. f_equal.
+    set (sh := ig_sh (build_root (walk_builder_opts f) (walk_builder_env f (w_cmd w)))) in *.
+    set (pn := if early_return f then [] else
+               match w_canon w with Some _ => rev (map (parent_node sh) (w_above w)) | None => [] end) in *.
+    assert (Hpn : forallb nd_abs pn = true).
+    { unfold pn. destruct (early_return f); [reflexivity|]. destruct (w_canon w); [apply parent_nodes_abs|reflexivity]. }
+    destruct (split_nodes sh (w_below w) pn Hpn) as [HT HD].
+    assert (VB : s_below (view_of (world_ig f w) p0 d) = s_below (wview f w p0 d)).
+    { unfold view_of, wview. cbn [s_below]. rewrite HN, HT, map_rev_map. apply map_ext. intro di. apply child_view. }
+    assert (VA : s_above (view_of (world_ig f w) p0 d) =
+                 match (if early_return f then None else w_canon w) with
+                 | Some b => map (nview (rebase b (last_dir w) (strip_dot_slash p0)) d true) (pn ++ [root_node])
+                 | None => map nview_silent (pn ++ [root_node])
+                 end).
+    { unfold view_of. cbn [s_above]. rewrite HA, HN, HD, (self_dir_world f w HB). reflexivity. }
+    apply stage_sources_above_ext.
+    + exact VB.
+    + unfold view_of, wview. cbn [s_global]. rewrite HS. destruct f as [fh fd fe ff fg fp fv fr]. cbn.
+      destruct fv, fg; reflexivity.
+    + unfold view_of, wview. cbn [s_explicit]. rewrite HS. destruct f as [fh fd fe ff fg fp fv fr]. cbn.
+      destruct ff; reflexivity.
+    + rewrite VA. unfold wview. cbn [s_above]. unfold pn.
+      destruct (early_return f) eqn:EE.
+      * cbn [app map existsb nview_silent v_git root_node nd_has_git orb].
+        destruct (w_canon w); [|reflexivity]. symmetry.
+        rewrite existsb_map. apply existsb_nexists_false. intros di _.
+        apply wdview_nogit_vcs. unfold early_return in EE. apply andb_true_iff in EE. tauto.
+      * destruct (w_canon w) as [b|]; [|reflexivity].
+        rewrite map_app. cbn [map]. rewrite existsb_app_single; [|reflexivity].
+        rewrite map_rev_map. f_equal. apply map_ext. intro di. apply parent_view.
+    + intro EP. rewrite VA. unfold wview. cbn [s_above]. unfold pn.
+      assert (EE : early_return f = false).
+      { destruct f as [fh fd fe ff fg fp fv fr]. cbn in EP. unfold early_return. cbn. destruct fp; [discriminate|reflexivity]. }
+      rewrite EE. destruct (w_canon w) as [b|].
+      * exists (nview (rebase b (last_dir w) (strip_dot_slash p0)) d true root_node).
+        rewrite map_app. split; [|apply root_node_silent].
+        cbn [map]. f_equal. rewrite map_rev_map. apply map_ext. intro di. apply parent_view.
+      * exists (nview_silent root_node). cbn [app map]. split; [reflexivity|apply root_node_silent'].
+Qed.
+
+(* ================================================================ one lemma per flag *)
+Lemma decide_spec_opts o o' s :
+  o_parents o = o_parents o' -> o_require_git o = o_require_git o' -> o_hidden o = o_hidden o' ->
+  decide_spec o s = decide_spec o' s.
+Proof.
+  intros H1 H2 H3. unfold decide_spec, ignore_stage, stage_sources. rewrite H1, H2, H3. reflexivity.
+Qed.
+
+Lemma last_dir_map g w c : (forall d, di_path (g d) = di_path d) ->
+  last_dir {| w_cmd := c; w_canon := w_canon w; w_above := map g (w_above w); w_below := map g (w_below w) |} = last_dir w.
+Proof.
+  intro H. unfold last_dir. cbn [w_below]. rewrite <- map_rev. destruct (rev (w_below w)); [reflexivity|]. cbn [map]. apply H.
+Qed.
+
+(* erasing the rules of a source in every directory / on the command line *)
+Lemma wview_erase f1 f2 (g : dirinfo -> dirinfo) (gc : cmdline -> cmdline) w p0 d :
+  (forall a p di, wdview f1 a p d di = wdview f2 a p d (g di)) ->
+  (forall di, di_path (g di) = di_path di) ->
+  c_globs (gc (w_cmd w)) = c_globs (w_cmd w) -> c_types (gc (w_cmd w)) = c_types (w_cmd w) ->
+  (forall p, src_on (negb (f_no_ignore_vcs f1) && negb (f_no_ignore_global f1)) (c_global (w_cmd w) p d)
+             = src_on (negb (f_no_ignore_vcs f2) && negb (f_no_ignore_global f2)) (c_global (gc (w_cmd w)) p d)) ->
+  (forall p, (if f_no_ignore_files f1 then [] else map (fun g0 : gmatcher => g0 p d) (rev (c_ignore_files (w_cmd w))))
+             = (if f_no_ignore_files f2 then [] else map (fun g0 : gmatcher => g0 p d) (rev (c_ignore_files (gc (w_cmd w)))))) ->
+  wview f1 w p0 d = wview f2 (map_cmd gc (map_dirs g w)) p0 d.
+Proof.
+  intros HV HP HG HT HGl HE. unfold wview, map_cmd, map_dirs. cbn [w_cmd w_canon w_above w_below].
+  rewrite (last_dir_map g w (gc (w_cmd w)) HP).
+  rewrite HG, HT, <- HGl, <- HE.
+  f_equal.
+  - rewrite <- map_rev, map_map. apply map_ext. intro di. apply HV.
+  - destruct (w_canon w); [|reflexivity]. rewrite <- map_rev, map_map. apply map_ext. intro di. apply HV.
+Qed.
+
+Lemma map_cmd_id w : map_cmd (fun c => c) w = w.
+Proof. destruct w; reflexivity. Qed.
+Lemma map_dirs_id w : map_dirs (fun d => d) w = w.
+Proof. destruct w as [c k a b]. unfold map_dirs. cbn. rewrite !map_id. reflexivity. Qed.
+
+Lemma flag_dot_world f w p d :
+  decide_world (set_dot true f) w p d = decide_world (set_dot false f) (erase_dot w) p d.
+Proof.
+  unfold erase_dot. rewrite <- (map_cmd_id (map_dirs di_no_dot w)).
+  revert f w p d. intros f w p d. set (f2 := set_dot false f). set (f1 := set_dot true f).
+  unfold decide_world.
+  rewrite (wview_erase f1 f2 di_no_dot (fun c => c) w p d); unfold f1, f2; try reflexivity;
+    try (intros; destruct f as [fh fd fe ff fg fp fv fr]; unfold wdview, src_on; cbn; try destruct fv; reflexivity).
+Qed.
+
+Lemma flag_exclude_world f w p d :
+  decide_world (set_exclude true f) w p d = decide_world (set_exclude false f) (erase_exclude w) p d.
+Proof.
+  unfold erase_exclude. rewrite <- (map_cmd_id (map_dirs di_no_exclude w)). unfold decide_world.
+  rewrite (wview_erase (set_exclude true f) (set_exclude false f) di_no_exclude (fun c => c) w p d); try reflexivity;
+    try (intros; destruct f as [fh fd fe ff fg fp fv fr]; unfold wdview, src_on; cbn; try destruct fv; reflexivity).
+Qed.
+
+Lemma flag_global_world f w p d :
+  decide_world (set_global true f) w p d = decide_world (set_global false f) (erase_global w) p d.
+Proof.
+  unfold erase_global. rewrite <- (map_dirs_id w) at 2. unfold decide_world.
+  rewrite (wview_erase (set_global true f) (set_global false f) (fun x => x) cmd_no_global w p d); try reflexivity;
+    try (intros; destruct f as [fh fd fe ff fg fp fv fr]; unfold wdview, src_on; cbn; try destruct fv; reflexivity).
+Qed.
+
+Lemma flag_files_world f w p d :
+  decide_world (set_files true f) w p d = decide_world (set_files false f) (erase_files w) p d.
+Proof.
+  unfold erase_files. rewrite <- (map_dirs_id w) at 2. unfold decide_world.
+  rewrite (wview_erase (set_files true f) (set_files false f) (fun x => x) cmd_no_files w p d); try reflexivity;
+    try (intros; destruct f as [fh fd fe ff fg fp fv fr]; unfold wdview, src_on; cbn; try destruct fv; reflexivity).
+Qed.
+
+(* when no git source has an opinion, which directories count as repository roots is irrelevant *)
+Lemma stage_sources_git_silent o s s' :
+  map v_custom (s_below s) = map v_custom (s_below s') -> map v_custom (s_above s) = map v_custom (s_above s') ->
+  map v_ignore (s_below s) = map v_ignore (s_below s') -> map v_ignore (s_above s) = map v_ignore (s_above s') ->
+  (forall x, In x (s_below s ++ s_above s) -> v_gi x = MNone /\ v_excl x = MNone) ->
+  (forall x, In x (s_below s' ++ s_above s') -> v_gi x = MNone /\ v_excl x = MNone) ->
+  s_global s = MNone -> s_global s' = MNone -> s_explicit s = s_explicit s' ->
+  stage_sources o s = stage_sources o s'.
+Proof.
+  intros C1 C2 I1 I2 G1 G2 L1 L2 E. unfold stage_sources. rewrite L1, L2, E.
+  assert (Z : forall (t : sview) (f : dview -> mtch),
+             (forall x, In x (s_below t ++ s_above t) -> f x = MNone) ->
+             nearest (map f (upto_repo (heard (o_parents o) (s_below t) (s_above t)))) = MNone).
+  { intros t f H. apply nearest_all_none. intros m Hm. apply in_map_iff in Hm as (x & <- & Hx).
+    apply H. apply upto_repo_incl in Hx. unfold heard in Hx. destruct (o_parents o); [exact Hx|apply in_or_app; left; exact Hx]. }
+  rewrite (Z s v_gi), (Z s v_excl), (Z s' v_gi), (Z s' v_excl); try (intros x Hx; first [apply G1 in Hx|apply G2 in Hx]; tauto).
+  unfold heard. destruct (o_parents o); rewrite ?map_app, C1, ?C2, I1, ?I2;
+    destruct (in_repo (o_require_git o) s), (in_repo (o_require_git o) s'); reflexivity.
+Qed.
+
+Lemma flag_vcs_world f w p d :
+  decide_world (set_vcs true f) w p d = decide_world (set_vcs false f) (erase_vcs w) p d.
+Proof.
+  unfold decide_world.
+  rewrite (decide_spec_opts (walk_builder_opts (set_vcs true f)) (walk_builder_opts (set_vcs false f))); try reflexivity.
+  apply decide_spec_ext; try reflexivity.
+  replace (s_any_rules (wview (set_vcs true f) w p d)) with true by reflexivity.
+  replace (s_any_rules (wview (set_vcs false f) (erase_vcs w) p d)) with true by reflexivity.
+  unfold ignore_stage. f_equal.
+  assert (LD : last_dir (erase_vcs w) = last_dir w).
+  { unfold erase_vcs, map_cmd. cbn. apply (last_dir_map di_no_vcs w). reflexivity. }
+  apply stage_sources_git_silent; unfold wview, erase_vcs, map_cmd, map_dirs;
+    cbn [s_below s_above s_global s_explicit w_cmd w_canon w_above w_below].
+  - rewrite <- map_rev, !map_map. apply map_ext. intro di. destruct f; reflexivity.
+  - fold (map_dirs di_no_vcs w). destruct (w_canon w); [|reflexivity].
+    change (last_dir {| w_cmd := cmd_no_global (w_cmd w); w_canon := Some l; w_above := map di_no_vcs (w_above w); w_below := map di_no_vcs (w_below w) |})
+      with (match rev (map di_no_vcs (w_below w)) with d0 :: _ => di_path d0 | [] => [] end).
+    rewrite <- (map_rev di_no_vcs (w_below w)). unfold last_dir.
+    destruct (rev (w_below w)); cbn [map di_path di_no_vcs]; rewrite <- map_rev, !map_map; apply map_ext; intro di; destruct f; reflexivity.
+  - rewrite <- map_rev, !map_map. apply map_ext. intro di. destruct f; reflexivity.
+  - destruct (w_canon w); [|reflexivity].
+    unfold last_dir. cbn [w_below]. rewrite <- (map_rev di_no_vcs (w_below w)).
+    destruct (rev (w_below w)); cbn [map di_path di_no_vcs]; rewrite <- map_rev, !map_map; apply map_ext; intro di; destruct f; reflexivity.
+  - intros x Hx. apply in_app_or in Hx as [Hx|Hx].
+    + apply in_map_iff in Hx as (di & <- & _). destruct f; split; reflexivity.
+    + destruct (w_canon w); [|destruct Hx]. apply in_map_iff in Hx as (di & <- & _). destruct f; split; reflexivity.
+  - intros x Hx. apply in_app_or in Hx as [Hx|Hx].
+    + apply in_map_iff in Hx as (di & <- & Hd). apply in_rev in Hd. apply in_map_iff in Hd as (d0 & <- & _).
+      destruct f as [fh fd fe ff fg fp fv fr]; split; cbn; [reflexivity|destruct fe; reflexivity].
+    + destruct (w_canon w); [|destruct Hx]. apply in_map_iff in Hx as (di & <- & Hd). apply in_rev in Hd.
+      apply in_map_iff in Hd as (d0 & <- & _).
+      destruct f as [fh fd fe ff fg fp fv fr]; split; cbn; [reflexivity|destruct fe; reflexivity].
+  - destruct f; reflexivity.
+  - destruct f as [fh fd fe ff fg fp fv fr]. cbn. destruct fg; reflexivity.
+  - destruct f; reflexivity.
+Qed.
+
+Lemma decide_spec_ext2 o o' s s' :
+  s_overrides s = s_overrides s' -> s_types s = s_types s' -> s_hidden s = s_hidden s' -> o_hidden o = o_hidden o' ->
+  s_any_rules s = s_any_rules s' -> stage_sources o s = stage_sources o' s' ->
+  decide_spec o s = decide_spec o' s'.
+Proof. intros H1 H2 H3 H4 H5 H6. unfold decide_spec, ignore_stage. rewrite H1, H2, H3, H4, H5, H6. reflexivity. Qed.
+
+Lemma flag_parent_world f w p d :
+  decide_world (set_parent true f) w p d = decide_world (set_parent false f) (erase_parent w) p d.
+Proof.
+  unfold decide_world. apply decide_spec_ext2; try reflexivity.
+  unfold stage_sources, in_repo, heard.
+  replace (o_parents (walk_builder_opts (set_parent true f))) with false by reflexivity.
+  replace (o_parents (walk_builder_opts (set_parent false f))) with true by reflexivity.
+  replace (o_require_git (walk_builder_opts (set_parent true f))) with (o_require_git (walk_builder_opts (set_parent false f))) by reflexivity.
+  replace (s_below (wview (set_parent true f) w p d)) with (s_below (wview (set_parent false f) (erase_parent w) p d)) by reflexivity.
+  replace (s_global (wview (set_parent true f) w p d)) with (s_global (wview (set_parent false f) (erase_parent w) p d)) by reflexivity.
+  replace (s_explicit (wview (set_parent true f) w p d)) with (s_explicit (wview (set_parent false f) (erase_parent w) p d)) by reflexivity.
+  set (B := s_below (wview (set_parent false f) (erase_parent w) p d)).
+  set (A' := s_above (wview (set_parent false f) (erase_parent w) p d)).
+  set (A := s_above (wview (set_parent true f) w p d)).
+  assert (HG : existsb v_git (B ++ A) = existsb v_git (B ++ A')).
+  { rewrite !existsb_app. f_equal. unfold A, A', wview, erase_parent. cbn [s_above w_canon w_above w_below w_cmd].
+    destruct (w_canon w); [|reflexivity]. rewrite <- map_rev, !existsb_map. unfold last_dir. cbn [w_below].
+    induction (rev (w_above w)) as [|x r IH]; [reflexivity|]. cbn [existsb map]. rewrite IH. reflexivity. }
+  assert (HS : forall x, In x A' -> v_custom x = MNone /\ v_ignore x = MNone /\ v_gi x = MNone /\ v_excl x = MNone).
+  { intros x Hx. unfold A', wview, erase_parent in Hx. cbn [s_above w_canon w_above] in Hx.
+    destruct (w_canon w); [|destruct Hx]. apply in_map_iff in Hx as (di & <- & Hd). apply in_rev in Hd.
+    apply in_map_iff in Hd as (d0 & <- & _).
+    destruct f as [fh fd fe ff fg fp fv fr]. unfold wdview, src_on. cbn. destruct fd, fv, fe; repeat split. }
+  rewrite HG.
+  rewrite (nearest_app_silent v_custom B A'), (nearest_app_silent v_ignore B A'),
+    (nearest_upto_app_silent v_gi B A'), (nearest_upto_app_silent v_excl B A');
+    try (intros x Hx; apply HS in Hx; tauto).
+  reflexivity.
+Qed.
+
+(* --hidden: the verdict is that of the world in which no name counts as hidden *)
+Definition unhide (s : sview) : sview :=
+  {| s_overrides := s_overrides s; s_below := s_below s; s_above := s_above s; s_global := s_global s;
+     s_explicit := s_explicit s; s_types := s_types s; s_hidden := false; s_any_rules := s_any_rules s |}.
+
+Lemma flag_hidden_world f w p d :
+  decide_world (set_hidden true f) w p d
+  = decide_spec (walk_builder_opts (set_hidden false f)) (unhide (wview (set_hidden false f) w p d)).
+Proof.
+  unfold decide_world, decide_spec, ignore_stage, stage_sources. cbn [unhide s_overrides s_any_rules s_types s_hidden].
+  replace (o_hidden (walk_builder_opts (set_hidden true f))) with false by reflexivity.
+  rewrite andb_false_r. reflexivity.
+Qed.
+
+(* compositions: --no-ignore, -u, -uu, -uuu *)
+Lemma flag_no_ignore_is f :
+  flag_no_ignore f = set_dot true (set_exclude true (set_global true (set_parent true (set_vcs true f)))).
+Proof. destruct f; reflexivity. Qed.
+
+Definition clear5 (f : lowflags) : lowflags :=
+  set_dot false (set_exclude false (set_global false (set_parent false (set_vcs false f)))).
+Definition erase5 (w : world) : world :=
+  erase_vcs (erase_parent (erase_global (erase_exclude (erase_dot w)))).
+
+Lemma flag_no_ignore_world f w p d :
+  decide_world (flag_no_ignore f) w p d = decide_world (clear5 f) (erase5 w) p d.
+Proof.
+  rewrite flag_no_ignore_is, flag_dot_world.
+  replace (set_dot false (set_exclude true (set_global true (set_parent true (set_vcs true f)))))
+    with (set_exclude true (set_dot false (set_global true (set_parent true (set_vcs true f))))) by (destruct f; reflexivity).
+  rewrite flag_exclude_world.
+  replace (set_exclude false (set_dot false (set_global true (set_parent true (set_vcs true f)))))
+    with (set_global true (set_exclude false (set_dot false (set_parent true (set_vcs true f))))) by (destruct f; reflexivity).
+  rewrite flag_global_world.
+  replace (set_global false (set_exclude false (set_dot false (set_parent true (set_vcs true f)))))
+    with (set_parent true (set_global false (set_exclude false (set_dot false (set_vcs true f))))) by (destruct f; reflexivity).
+  rewrite flag_parent_world.
+  replace (set_parent false (set_global false (set_exclude false (set_dot false (set_vcs true f)))))
+    with (set_vcs true (set_parent false (set_global false (set_exclude false (set_dot false f))))) by (destruct f; reflexivity).
+  rewrite flag_vcs_world.
+  unfold clear5, erase5. reflexivity.
+Qed.
+
+Lemma flag_unrestricted_world n f w p d :
+  decide_world (flag_unrestricted n f) w p d =
+  match n with
+  | 0 => decide_world f w p d
+  | 1 => decide_world (clear5 f) (erase5 w) p d
+  | _ => decide_spec (walk_builder_opts (set_hidden false (clear5 f))) (unhide (wview (set_hidden false (clear5 f)) (erase5 w) p d))
+  end.
+Proof.
+  destruct n as [|[|n]]; cbn [flag_unrestricted]; [reflexivity|apply flag_no_ignore_world|].
+  replace (flag_hidden (flag_no_ignore f)) with (flag_no_ignore (set_hidden true f)) by (destruct f; reflexivity).
+  rewrite flag_no_ignore_world.
+  replace (clear5 (set_hidden true f)) with (set_hidden true (clear5 f)) by (destruct f; reflexivity).
+  apply flag_hidden_world.
+Qed.
+
+(* ================================================================ the same, for the model's decision *)
+Lemma map_nonempty {A B} (g : A -> B) l : l <> [] -> map g l <> [].
+Proof. destruct l; [intro H; exfalso; apply H; reflexivity|discriminate]. Qed.
+
+Ltac via_world HB :=
+  rewrite !decide_eq_world_proof; [| try exact HB; cbn [erase_dot erase_exclude erase_global erase_vcs erase_files erase_parent erase5
+      map_dirs map_cmd w_below]; repeat apply map_nonempty; exact HB ..].
+
+Lemma flag_dot_proof f w p d : w_below w <> [] ->
+  decide (set_dot true f) w p d = decide (set_dot false f) (erase_dot w) p d.
+Proof. intro HB. via_world HB. apply flag_dot_world. Qed.
+Lemma flag_exclude_proof f w p d : w_below w <> [] ->
+  decide (set_exclude true f) w p d = decide (set_exclude false f) (erase_exclude w) p d.
+Proof. intro HB. via_world HB. apply flag_exclude_world. Qed.
+Lemma flag_global_proof f w p d : w_below w <> [] ->
+  decide (set_global true f) w p d = decide (set_global false f) (erase_global w) p d.
+Proof. intro HB. via_world HB. apply flag_global_world. Qed.
+Lemma flag_files_proof f w p d : w_below w <> [] ->
+  decide (set_files true f) w p d = decide (set_files false f) (erase_files w) p d.
+Proof. intro HB. via_world HB. apply flag_files_world. Qed.
+Lemma flag_vcs_proof f w p d : w_below w <> [] ->
+  decide (set_vcs true f) w p d = decide (set_vcs false f) (erase_vcs w) p d.
+Proof. intro HB. via_world HB. apply flag_vcs_world. Qed.
+Lemma flag_parent_proof f w p d : w_below w <> [] ->
+  decide (set_parent true f) w p d = decide (set_parent false f) (erase_parent w) p d.
+Proof. intro HB. via_world HB. apply flag_parent_world. Qed.
+Lemma flag_no_ignore_proof f w p d : w_below w <> [] ->
+  decide (flag_no_ignore f) w p d = decide (clear5 f) (erase5 w) p d.
+Proof. intro HB. via_world HB. apply flag_no_ignore_world. Qed.
+Lemma flag_hidden_proof f w p d : w_below w <> [] ->
+  decide (set_hidden true f) w p d
+  = decide_spec (walk_builder_opts (set_hidden false f)) (unhide (wview (set_hidden false f) w p d)).
+Proof. intro HB. rewrite decide_eq_world_proof by exact HB. apply flag_hidden_world. Qed.
+Lemma flag_unrestricted_proof n f w p d : w_below w <> [] ->
+  decide (flag_unrestricted n f) w p d =
+  match n with
+  | 0 => decide f w p d
+  | 1 => decide (clear5 f) (erase5 w) p d
+  | _ => decide_spec (walk_builder_opts (set_hidden false (clear5 f))) (unhide (wview (set_hidden false (clear5 f)) (erase5 w) p d))
+  end.
+Proof.
+  intro HB. rewrite decide_eq_world_proof by exact HB. rewrite flag_unrestricted_world.
+  destruct n as [|[|n]]; try reflexivity; symmetry; apply decide_eq_world_proof; try exact HB.
+  cbn [erase5 erase_dot erase_exclude erase_global erase_vcs erase_parent map_dirs map_cmd w_below].
+  repeat apply map_nonempty. exact HB.
+Qed.
+
+(* ================================================================ what `last component` means *)
+Lemma alsf_spec p : forall i best,
+  (after_last_slash_from i best p = best /\ ~ In SLASH p) \/
+  (exists j, after_last_slash_from i best p = i + j + 1 /\ nth_error p j = Some SLASH /\ ~ In SLASH (skipn (j + 1) p)).
+Proof.
+  induction p as [|c r IH]; intros i best; cbn [after_last_slash_from].
+  - left. split; [reflexivity|intros []].
+  - destruct (c =? SLASH)%N eqn:E.
+    + apply N.eqb_eq in E. subst c. destruct (IH (S i) (S i)) as [[H1 H2]|(j & H1 & H2 & H3)].
+      * right. exists 0. rewrite H1. split; [lia|]. split; [reflexivity|exact H2].
+      * right. exists (S j). rewrite H1. split; [lia|]. split; [exact H2|exact H3].
+    + apply N.eqb_neq in E. destruct (IH (S i) best) as [[H1 H2]|(j & H1 & H2 & H3)].
+      * left. split; [exact H1|]. intros [H|H]; [apply E; exact H|exact (H2 H)].
+      * right. exists (S j). rewrite H1. split; [lia|]. split; [exact H2|exact H3].
+Qed.
+
+Lemma firstn_S_nth {A} (l : list A) : forall j x, nth_error l j = Some x -> firstn (S j) l = firstn j l ++ [x].
+Proof.
+  induction l as [|y r IH]; intros [|j] x H; try discriminate.
+  - cbn in H. injection H as ->. reflexivity.
+  - cbn [nth_error] in H. change (firstn (S (S j)) (y :: r)) with (y :: firstn (S j) r).
+    rewrite (IH j x H). reflexivity.
+Qed.
+
+(* the last component: what follows the last '/', or the whole path when there is none *)
+Lemma last_component_char p :
+  ~ In SLASH (last_component p) /\
+  exists pre, p = pre ++ last_component p /\ (pre = [] \/ exists pre', pre = pre' ++ [SLASH]).
+Proof.
+  unfold last_component, after_last_slash.
+  destruct (alsf_spec p 0 0) as [[H1 H2]|(j & H1 & H2 & H3)]; rewrite H1.
+  - cbn [skipn]. split; [exact H2|]. exists []. split; [reflexivity|left; reflexivity].
+  - replace (0 + j + 1) with (j + 1) by lia. split; [exact H3|].
+    exists (firstn (j + 1) p). split; [symmetry; apply firstn_skipn|].
+    right. exists (firstn j p). replace (j + 1) with (S j) by lia. apply firstn_S_nth. exact H2.
+Qed.
